@@ -200,8 +200,16 @@ func (w *world) opInsert(t *inst, op Op) {
 	var err error
 	w.faultMark()
 	arg := val(append([]byte{}, v...))
-	if w.guard(fmt.Sprintf("Insert(%q)", p), func() { root, err = t.mpt.Insert(util.Path(p), arg) }) {
+	pbuf := util.Path(p)
+	if w.guard(fmt.Sprintf("Insert(%q)", p), func() { root, err = t.mpt.Insert(pbuf, arg) }) {
 		return
+	}
+	if w.s.Scribble && w.s.ScribblePaths && len(pbuf) > 0 {
+		// so does the path slice: the caller builds its next key in the same buffer
+		for i := range pbuf {
+			pbuf[i] = "0123456789abcdef"[(int(pbuf[i])+7+i)%16]
+		}
+		w.stats.Inc("fault.scribble-on-inserted-path")
 	}
 	if w.s.Scribble && len(arg.Buffer) > 0 && len(arg.Buffer) < 1<<20 {
 		// the value object passed to Insert stays the caller's: it refills it for its next write
@@ -308,11 +316,17 @@ func (w *world) opDelete(t *inst, op Op) {
 	_, present := t.model[p]
 	var err error
 	w.faultMark()
-	if w.guard(fmt.Sprintf("Delete(%q) [%s]", p, rel), func() { _, err = t.mpt.Delete(util.Path(p)) }) {
+	dbuf := util.Path(p)
+	if w.guard(fmt.Sprintf("Delete(%q) [%s]", p, rel), func() { _, err = t.mpt.Delete(dbuf) }) {
 		if w.v != nil && w.v.Oracle == "panic" {
 			w.v.Class = "delete:" + rel + ":" + w.v.Class
 		}
 		return
+	}
+	if w.s.Scribble && w.s.ScribblePaths {
+		for i := range dbuf {
+			dbuf[i] = "0123456789abcdef"[(int(dbuf[i])+5+i)%16]
+		}
 	}
 	if err != nil && (w.faultHit() || t.degraded) {
 		t.degraded = true
